@@ -17,7 +17,7 @@ def work(name):
     finally:
         shutil.rmtree(d, ignore_errors=True)
 
-names = sorted(os.listdir('/verif/refactorings'))
+names = sorted(n for n in os.listdir('/verif/refactorings') if os.path.isdir(os.path.join('/verif/refactorings', n)))
 if len(sys.argv) > 1:
     names = [n for n in names if n in sys.argv[1:]]
 with ProcessPoolExecutor(max_workers=8) as ex:
